@@ -41,7 +41,10 @@ def model(v, tier):
     if tier == "thorough":
         cfgs += [("Apply_nest.cfg", [("N0s = {2}", "N0s = {2, 3}"), ("Q0s = {\"global\", \"conc\"}", "Q0s = {\"global\", \"serial\"}")]),
                  ("Apply_conc.cfg", [("EnvOps = 2", "EnvOps = 3"), ("Q0s = {\"conc\"}", "Q0s = {\"conc\", \"chain\"}")]),
-                 ("Apply_live.cfg", [("N0s = {0, 1, 2, 3}", "N0s = {2, 3, 4}"), ("P = 3", "P = 4")])]
+                 ("Apply_live.cfg", [("N0s = {0, 1, 2, 3}", "N0s = {2, 3, 4}"), ("P = 3", "P = 4")]),
+                 ("Apply_global.cfg", [("N0s = {0, 1, 2, 3, 4}", "N0s = {5, 6}")]),
+                 ("Apply_nest.cfg", [("N0s = {2}", "N0s = {3}"), ("N1s = {1, 2}", "N1s = {2, 3}"),
+                                     ("Q0s = {\"global\", \"conc\"}", "Q0s = {\"global\"}")])]
     to = 900 if tier == "quick" else 2400
     wk = max(2, NCPU // 4)
 
@@ -228,6 +231,11 @@ def traces(v, tier, seed):
                 continue
             v.violation("trace rejected (%s)%s" % (desc, detail), p)
             continue
+        mo = sorted(set(re.findall(r'<<"MO_DRIFT", "(\w+)", "(\w+)">>', r.out)))
+        if mo:
+            msg = "memory order differs from the transcription (spec, code): %s - informational on TSO" % (mo,)
+            if msg not in v.drift:
+                v.drift.append(msg)
         v.traces += 1
         v.states += r.distinct
         v.transitions += r.generated
